@@ -87,6 +87,10 @@ CONFIGS = {
     's_pkg_inner': {'s': ['pkg', 'pkg.inner']},
     's_inner_pkg': {'s': ['pkg.inner', 'pkg']},
     's_pkg_twice': {'s': ['pkg', 'pkg']},
+    # the search path spelled through a symbolic link to the tree
+    'via_link': {'via_link': True},
+    'via_link_tp_s': {'via_link': True, 'kind': 'test-path', 's': 'pkg'},
+    'via_link_s_inner': {'via_link': True, 'kind': 'test-path', 's': ['pkg.inner']},
     'ignore_pkg': {'ignore_dir': 'pkg'},
 }
 
@@ -230,6 +234,8 @@ def reference(files, root, cfg, links_first=False):
 
 def argv_for(root, cfg):
     c = CONFIGS[cfg]
+    if c.get('via_link'):
+        root = root + '_link'
     argv = []
     kind = '--' + c.get('kind', 'path')
     for p in c.get('paths', ['']):
@@ -276,16 +282,24 @@ def run_case(case):
     saved_os = F.os
     F.os = _OsProxy(od)
     added = False
-    if root not in sys.path:
-        sys.path.insert(0, root)      # what PYTHONPATH / the cwd does for --test-path
+    sproot = root
+    if CONFIGS[cfg].get('via_link'):
+        if os.path.islink(root + '_link'):
+            os.unlink(root + '_link')
+        os.symlink(root, root + '_link')
+        sproot = root + '_link'      # the unresolved spelling is what sys.path has
+    if sproot not in sys.path:
+        sys.path.insert(0, sproot)      # what PYTHONPATH / the cwd does for --test-path
         added = True
     try:
-        res = runrt.run_plain(argv_for(root, cfg), roots=[root])
+        res = runrt.run_plain(argv_for(root, cfg), roots=[root, root + '_link'])
     finally:
         F.os = saved_os
-        if added and root in sys.path:
-            sys.path.remove(root)
+        if added and sproot in sys.path:
+            sys.path.remove(sproot)
     got = [ev[3] for ev in res.trace if ev[1] == 'import']
+    if CONFIGS[cfg].get('via_link'):
+        got = [root + f[len(root + '_link'):] if f.startswith(root + '_link') else f for f in got]
     viol = []
     sig = {'cfg': cfg, 'order': od}
     rel = lambda p: os.path.relpath(p, root)
